@@ -6,6 +6,7 @@ package gen
 
 import (
 	"fmt"
+	"sort"
 	"time"
 
 	"google.golang.org/protobuf/proto"
@@ -47,6 +48,10 @@ type G struct {
 	// CaseVariantNodes() adds "N1", which the catalog treats as the same node as "n1")
 	NodeNames  []string
 	NodeIDList []types.NodeID
+	// Focus: choose references (session checks, lock holders) by peeking at the store so that
+	// most session / lock commands are accepted (used by the session/lock monitor)
+	Focus    bool
+	peek     *state.Store
 	R        *core.Rand
 	W        Weights
 	sessSeq  int
@@ -207,7 +212,11 @@ func (g *G) Register() Cmd {
 		svc = g.nodeService(g.svc(), peer)
 		req.Service = svc
 	}
-	switch r.Intn(4) {
+	nc := 4
+	if g.Focus {
+		nc = 2 // more checks, so sessions have something to bind to
+	}
+	switch r.Intn(nc) {
 	case 0:
 		req.Check = g.check(req.Node, svc, peer)
 	case 1:
@@ -221,6 +230,31 @@ func (g *G) Register() Cmd {
 
 func (g *G) Deregister() Cmd {
 	r := g.R
+	if g.Focus && g.peek != nil && r.Chance(80) {
+		// deregister something that exists (local)
+		if _, nodes, err := g.peek.Nodes(nil, nil, ""); err == nil && len(nodes) > 0 {
+			n := nodes[r.Intn(len(nodes))]
+			req := structs.DeregisterRequest{Datacenter: "dc1", Node: n.Node}
+			switch r.Intn(5) {
+			case 0, 1:
+				if _, cs, err := g.peek.NodeChecks(nil, n.Node, nil, ""); err == nil && len(cs) > 0 {
+					req.CheckID = cs[r.Intn(len(cs))].CheckID
+					return mk(structs.DeregisterRequestType, "deregister:check", &req)
+				}
+			case 2, 3:
+				if _, ns, err := g.peek.NodeServices(nil, n.Node, nil, ""); err == nil && ns != nil && len(ns.Services) > 0 {
+					var ids []string
+					for id := range ns.Services {
+						ids = append(ids, id)
+					}
+					sort.Strings(ids)
+					req.ServiceID = ids[r.Intn(len(ids))]
+					return mk(structs.DeregisterRequestType, "deregister:service", &req)
+				}
+			}
+			return mk(structs.DeregisterRequestType, "deregister:node", &req)
+		}
+	}
 	req := structs.DeregisterRequest{Datacenter: "dc1", Node: g.node(), PeerName: g.peer()}
 	cls := "deregister:node"
 	switch r.Intn(3) {
@@ -259,6 +293,11 @@ func (g *G) kvIndex(s *state.Store, key string, idx uint64) uint64 {
 }
 
 func (g *G) sessionRef() string {
+	if g.Focus && g.peek != nil && g.R.Chance(85) {
+		if _, ss, err := g.peek.SessionList(nil, nil); err == nil && len(ss) > 0 {
+			return ss[g.R.Intn(len(ss))].ID
+		}
+	}
 	if len(g.Sessions) == 0 || g.R.Chance(10) {
 		return uuid(9000 + g.R.Intn(3))
 	}
@@ -299,6 +338,30 @@ func (g *G) SessionCreate() Cmd {
 	id := uuid(g.sessSeq)
 	g.Sessions = append(g.Sessions, id)
 	sess := structs.Session{ID: id, Node: g.node(), Behavior: core.Pick(r, []structs.SessionBehavior{structs.SessionKeysRelease, structs.SessionKeysRelease, structs.SessionKeysDelete})}
+	if g.Focus && g.peek != nil && r.Chance(85) {
+		// bind to checks that exist and are healthy on a registered node
+		if _, nodes, err := g.peek.Nodes(nil, nil, ""); err == nil && len(nodes) > 0 {
+			n := nodes[r.Intn(len(nodes))]
+			sess.Node = n.Node
+			if _, cs, err := g.peek.NodeChecks(nil, n.Node, nil, ""); err == nil {
+				for _, c := range cs {
+					if c.Status == api.HealthCritical || !r.Chance(60) {
+						continue
+					}
+					if c.ServiceID != "" {
+						sess.ServiceChecks = append(sess.ServiceChecks, structs.ServiceCheck{ID: string(c.CheckID)})
+					} else {
+						sess.NodeChecks = append(sess.NodeChecks, string(c.CheckID))
+					}
+				}
+			}
+		}
+		if r.Chance(20) {
+			sess.LockDelay = 15 * time.Second
+		}
+		req := structs.SessionRequest{Datacenter: "dc1", Op: structs.SessionCreate, Session: sess}
+		return mk(structs.SessionRequestType, "session:create", &req)
+	}
 	if r.Chance(40) {
 		sess.NodeChecks = []string{string(core.Pick(r, CheckIDs))}
 	}
@@ -896,6 +959,7 @@ func (g *G) Feature(s *state.Store, idx uint64) (Cmd, bool) {
 
 // Next generates the next command for log index idx; s (may be nil) is peeked for current indexes.
 func (g *G) Next(s *state.Store, idx uint64) Cmd {
+	g.peek = s
 	w := g.W
 	type fam struct {
 		w int
@@ -911,7 +975,11 @@ func (g *G) Next(s *state.Store, idx uint64) Cmd {
 		}},
 		{w.KV, func() (Cmd, bool) { return ok(g.KV(s, idx)) }},
 		{w.Session, func() (Cmd, bool) {
-			if g.R.Chance(60) {
+			pc := 60
+			if g.Focus {
+				pc = 85
+			}
+			if g.R.Chance(pc) {
 				return ok(g.SessionCreate())
 			}
 			return ok(g.SessionDestroy())
